@@ -86,3 +86,79 @@ pub fn dispatch(run: &mut Run) -> bool {
     }
     true
 }
+
+
+/// Re-execute a recorded SEQ counterexample outside the explorer, twice, and print what happens.
+fn replay_seq<M: SeqModel>(m: &M, names: &[String]) -> Option<i32> {
+    let letters = m.letters();
+    let mut hist = vec![];
+    for n in names {
+        match letters.iter().position(|l| l == n) {
+            Some(i) => hist.push(i),
+            None => return None,
+        }
+    }
+    let mut runs = vec![];
+    for round in 0..2 {
+        let (steps, key) = crate::seq::run_history(m, &hist);
+        let mut lines = vec![];
+        for (i, vs) in steps.iter().enumerate() {
+            let verdict = if vs.is_empty() { "ok".to_string() } else { vs.iter().map(|v| format!("{}{}: {}", if v.soft { "(known deviation) " } else { "" }, v.clause, v.detail)).collect::<Vec<_>>().join(" | ") };
+            lines.push(format!("  step {} {} -> {}", i + 1, names[i], verdict));
+        }
+        if round == 0 {
+            for l in lines.iter() {
+                println!("{}", l);
+            }
+        }
+        runs.push((lines, crate::util::hash128(&key)));
+    }
+    if runs[0] != runs[1] {
+        println!("machinery: the two replays differ (nondeterminism)");
+        return Some(2);
+    }
+    println!("replayed twice with identical observations");
+    let violated = runs[0].0.iter().any(|l| !l.ends_with("-> ok") && !l.contains("(known deviation)"));
+    Some(if violated { 1 } else { 0 })
+}
+
+pub fn replay(path: &str) -> i32 {
+    let text = match std::fs::read_to_string(path) {
+        Ok(t) => t,
+        Err(e) => {
+            eprintln!("cannot read {}: {}", path, e);
+            return 2;
+        }
+    };
+    let j: serde_json::Value = match serde_json::from_str(&text) {
+        Ok(j) => j,
+        Err(e) => {
+            eprintln!("bad replay file: {}", e);
+            return 2;
+        }
+    };
+    let prop = j["property"].as_str().unwrap_or("").to_string();
+    println!("property {} clause {} shape {}", prop, j["clause"], j["shape"]);
+    println!("recorded detail: {}", j["detail"].as_str().unwrap_or(""));
+    let r = &j["replay"];
+    if r["engine"] == "seq" {
+        let names: Vec<String> = r["letters"].as_array().map(|a| a.iter().filter_map(|x| x.as_str().map(|s| s.to_string())).collect()).unwrap_or_default();
+        println!("history: {:?}", names);
+        for quick in [true, false] {
+            let res = match prop.as_str() {
+                "C01" => replay_seq(&c01::C01::new(quick), &names),
+                "C02" => replay_seq(&c02::C02::new(quick), &names),
+                "C06" => replay_seq(&c06::C06::new(quick), &names),
+                _ => None,
+            };
+            if let Some(code) = res {
+                return code;
+            }
+        }
+        println!("(no in-process replayer for this property's model; re-run `./check {} quick` - the search is deterministic and shortest-first)", prop);
+        return 0;
+    }
+    println!("engine {}: the recorded choice sequence / schedule / crash point is in the file; re-run `./check {} quick` to reproduce (searches are deterministic)", r["engine"], prop);
+    println!("{}", serde_json::to_string_pretty(r).unwrap_or_default());
+    0
+}
